@@ -169,7 +169,7 @@ func (g *StressGen) Build() string {
 		// runs away for an object with Count <= 0, terminates for the good object (Count 3)
 		return "function f(n) { if (n <= 0) { return 0; } return f(n - Count); } return f(3);"
 	case "fault-by-field":
-		return "function g(a) { if (Count < 1) { panic(\"no\"); } return a % Count; } function f(a) { return g(a) + 1; } return f(7);"
+		return "function g(a) { if (Count < 1) { panic(Unset); } return a % Count; } function f(a) { return g(a) + 1; } return f(7);"
 	}
 	panic("unknown shape " + g.Shape)
 }
@@ -428,7 +428,7 @@ func wearCheck(t *testing.T, prop string) {
 	defer silenceAs("wear")()
 	col := evid.New(prop, "wear", "")
 	defer clearJournal("wear")
-	faults := []string{"return 1 % 0;", "return 1 / 0;", "panic(\"x\");", "return nosuch(n);", "return \"a\" + 1;", "return 1 .. \"a\";", "foreach z in 5 { n = z; } return n;", "return -\"a\";", "return len(1, 2) % 0;", "return dive(n + 1, bad);", "return 1 + dive(n, bad) + dive(n, bad);"}
+	faults := []string{"return 1 % 0;", "return 1 / 0;", "panic(\"x\");", "panic(Unset);", "panic();", "panic(n, bad);", "panic([n]);", "return nosuch(n);", "return \"a\" + 1;", "return 1 .. \"a\";", "foreach z in 5 { n = z; } return n;", "return -\"a\";", "return len(1, 2) % 0;", "return dive(n + 1, bad);", "return 1 + dive(n, bad) + dive(n, bad);"}
 	rapidCheck(t, col, func(rt *rapid.T) {
 		fault := faults[gen.Uniform(rt, "fault", len(faults))]
 		w := &WearSpec{BadRuns: rapid.SampledFrom([]int{1, 3, 40, 150, 400}).Draw(rt, "badruns"), Depth: rapid.SampledFrom([]int{0, 1, 5, 30, 120}).Draw(rt, "depth"),
